@@ -61,7 +61,11 @@ void Input(util::UnboundedSingleQueue<QueueEntry> &queue, util::scoped_fd &proce
 #ifdef PREPROCESS_VERIF
     uint64_t verif_record = 0;
 #endif
-    for (util::StringPiece l : util::FilePiece(STDIN_FILENO)) {
+    util::FilePiece input(STDIN_FILENO);
+    util::StringPiece l;
+    // A carriage return in front of the newline is part of the line (and of
+    // the key): the child must see exactly the bytes it would see directly.
+    while (input.ReadLineOrEOF(l, '\n', false)) {
 #ifdef PREPROCESS_VERIF
       PREPROCESS_VERIF_TRACE('F', "rec", verif_record);
 #endif
@@ -134,7 +138,7 @@ void Output(util::UnboundedSingleQueue<QueueEntry> &queue, util::scoped_fd &proc
 #endif
     if (!value.data()) {
       // New entry, not cached.
-      util::StringPiece got = in.ReadLine();
+      util::StringPiece got = in.ReadLine('\n', false);
 #ifdef PREPROCESS_VERIF
       PREPROCESS_VERIF_TRACE('C', "line", verif_line++);
 #endif
